@@ -6,7 +6,7 @@ from fractions import Fraction
 TRIM_TEXT = b'\t \n:"-'
 LATIN = 'abcdefghijklmnopqrstuvwxyz'
 SCRIPTS = ['абвгдежзийклмнопрстуфхцчшщъьюя', '米飯茶魚肉菜水果', 'αβγδεζηθικλμ', 'éüñçøå', 'שלוםעברית']
-LEAVES = [b'calories', b'fat', b'carbohydrate', b'protein', b'fiber', b'salt', b'sugar']
+LEAVES = [b'calories', b'fat', b'carbohydrate', b'protein', b'fiber', b'salt', b'sugar', b'Zinc', b'B12']
 
 WINDOW = [datetime.date(2021, 1, 22) + datetime.timedelta(days=i) for i in range(7)]
 
@@ -88,7 +88,17 @@ class G:
             alpha = r.choice(SCRIPTS)
         else:
             alpha = LATIN
-        return ''.join(r.choice(alpha) for _ in range(r.randint(lo, hi)))
+        w = ''.join(r.choice(alpha) for _ in range(r.randint(lo, hi)))
+        # letter case matters: names are compared and ordered byte-wise (`Zinc` sorts before `ascorbic`)
+        roll = r.random()
+        if roll < 0.08:
+            w = w.capitalize()
+        elif roll < 0.10:
+            w = w.upper()
+        elif roll < 0.12 and len(w) > 1:
+            k = r.randrange(len(w))
+            w = w[:k] + w[k].upper() + w[k + 1:]
+        return w
 
     def segment(self, unusual=0.25):
         r = self.r
